@@ -13,7 +13,7 @@ from translate import libio as t_libio, wrapper as t_wr, gatecode as t_gc, stora
 THEOREMS = ["C16_disciplines", "C16_invariant", "C16_no_crash", "C16_inplace_refuted", "C16_bypath_refuted", "C16_reentrant_structure",
             "C16_rebuilds_empty_refuted", "C16_compile_requires_model", "C16_buffers_private", "C16_threads_sequential",
             "C16_threads_complete", "C16_stale_memory", "C16_shared_static_refuted", "C16_private_example", "C16_unwritten_read_refuted",
-            "C16_invariant_any_inode_policy", "C16_policies_fresh", "C16_cached_by_identity_refuted", "C16_threads_dense_networks", "C16_threads_spatial_networks"]
+            "C16_invariant_any_inode_policy", "C16_policies_fresh", "C16_cached_by_identity_refuted", "C16_threads_dense_networks", "C16_threads_spatial_networks", "C16_threads_wrapper_counts"]
 TRUSTED = [
     "Coq 8.16.1 kernel/coqc; theorems closed under the global context",
     "partial: the process model Model/Proc.v (files as inodes, in-place overwrite modifies mapped pages, dlopen caches by path name, a "
